@@ -58,12 +58,42 @@ def fwd_result(ctx, cfg):
     return ctx.memo(("fwd", cfg), lambda: fwd.analyse(ctx.crate(cfg)))
 
 
+def _callers_of(ctx, cfg):
+    """callee path -> bodies that call it (resolved callee), for attributing a helper introduced after the review to the
+    properties of the functions that use it"""
+    def build():
+        out = {}
+        for b in ctx.crate(cfg).bodies:
+            for bb, t, fn in b.iter_calls():
+                if not fn:
+                    continue
+                for path in ((fn.get("res") or {}).get("path"), fn.get("path")):
+                    if path:
+                        out.setdefault(path, []).append(b)
+        return out
+    return ctx.memo(("callers", cfg), build)
+
+
+def _selected_through_callers(ctx, cfg, w, select, depth=0):
+    """a writer that is a new helper belongs to a property when one of its (transitive) callers does"""
+    if not storage.is_new_private_helper(w.body) or depth > 2:
+        return False
+    for c in _callers_of(ctx, cfg).get(w.body.path, []):
+        owner = c
+        if owner.kind == "Closure":
+            continue
+        proxy = mask.Writer(owner, w.klass, w.ok, w.msg, w.detail)
+        if select(proxy) or _selected_through_callers(ctx, cfg, proxy, select, depth + 1):
+            return True
+    return False
+
+
 def run_mask(ctx, rep, select=None, rule="MASK"):
     m = Merge(rep)
     counts = {}
     for cfg in CONFIGS:
         for w in writers(ctx, cfg):
-            if select and not select(w):
+            if select and not select(w) and not _selected_through_callers(ctx, cfg, w, select):
                 continue
             counts[w.klass] = counts.get(w.klass, 0) + (1 if cfg == "dbg" else 0)
             key = w.body.key
@@ -133,7 +163,10 @@ def run_fwd(ctx, rep, ops=None, rule="FWD"):
             if cfg == "dbg":
                 counts["universe"] += 1
                 counts["kernels" if kind == "kernel" else "forwarders"] += 1
-            if kind == "kernel":
+            if kind == "opaque":
+                m.add(rule, b.key, True, "forwards through %s and closures: operand order not extracted" % r.opaque.get(b.path, "a helper"),
+                      _where(b), cfg, undecided=True)
+            elif kind == "kernel":
                 m.add(rule + "-KERNEL", b.key, True, "kernel of %s (loop / raw storage access)" % base, _where(b), cfg,
                       nontrivial=False)
             else:
@@ -347,7 +380,10 @@ def div_rem_shape(crate):
             q, r = a[1]
             qi, ri = b.init_expr(q[2]), b.init_expr(r[2])
             okq = qi is not None and mir.is_call(qi, "zeros") and (qi[3][0] == f2.SELF_LEN or (mir.is_call(qi[3][0], "len") and qi[3][0][3] == (("param", "self"),)))
-            okr = ri is not None and (ri == ("param", "self") or (mir.is_call(ri, "clone") and ri[3] == (("param", "self"),)))
+            okr = ri is not None and (ri == ("param", "self") or (mir.is_call(ri, "clone") and ri[3] == (("param", "self"),))
+                                      # T::from(&T) of the vector's own type is the identity conversion (a copy)
+                                      or (mir.is_call(ri, ("from", "into")) and ri[3] == (("param", "self"),) and len(ri) > 4
+                                          and len(ri[4]) == 2 and ri[4][1].lstrip("&") == ri[4][0] and mir.ty_family(ri[4][0]) == b.self_family))
             if not okq:
                 ok = False
                 msgs.append("quotient is initialised from %s, not zeros(len(self))" % (mir.show(qi) if qi else "?"))
@@ -583,6 +619,17 @@ def _subst(e, mapping):
     return tuple(_subst(y, mapping) if isinstance(y, tuple) else y for y in e)
 
 
+def _variant_sites(crate, b, variant):
+    """blocks of b where a Bv::<variant> value is built: the aggregate itself, or a call to a helper introduced after the
+    review whose body builds it (`*self = Bv::spill(inline, |heap| ..)`)"""
+    out = [bb for bb, i, st in b.iter_stmts() if st["s"] == "assign" and st["r"]["k"] == "agg" and st["r"].get("variant") == variant]
+    for bb, t, fn in b.iter_calls():
+        h = crate.new_helper(fn)
+        if h is not None and any(st["s"] == "assign" and st["r"]["k"] == "agg" and st["r"].get("variant") == variant for _, _, st in h.iter_stmts()):
+            out.append(bb)
+    return out
+
+
 def bv_reserve_shape(crate):
     """Bv::reserve promotes exactly when len + additional > Bvp::capacity(); shrink_to_fit demotes exactly when
     len <= Bvp::capacity() (the predicate Bv::zeros uses to choose inline storage)"""
@@ -601,7 +648,7 @@ def bv_reserve_shape(crate):
                     if op == "Gt" and guard.is_capacity_call(r) and mir.is_bin(l, "Add") and add in (l[2], l[3]) \
                             and any(mir.is_call(x, "len") for x in (l[2], l[3])):
                         # promotion (aggregate Bv::Dynamic) on that edge only
-                        dyn = [bb for bb, i, st in b.iter_stmts() if st["s"] == "assign" and st["r"]["k"] == "agg" and st["r"].get("variant") == "Dynamic"]
+                        dyn = _variant_sites(crate, b, "Dynamic")
                         ok = ok or (bool(dyn) and all(b.edge_dominates((sb, succ), d) for d in dyn))
         out.append((b, "Bv::reserve|promotion predicate", "pass" if ok else "violation",
                     "promotes to heap storage exactly when len + additional > Bvp::capacity()" if ok else "promotion predicate not recognised"))
@@ -609,13 +656,22 @@ def bv_reserve_shape(crate):
         # every reserve() issued by Bv::reserve passes `additional` unchanged: the promoted Bvd has the same length
         # as the inline vector, so reserve(additional) is what makes capacity >= len + additional
         rs = [e for e in storage.events(b) if e.kind == "mcall" and e.name == "reserve"]
-        okr = len(rs) == 2 and all(e.args[1] == ("param", b.local_name(2)) for e in rs)
+        okr = len(rs) >= 1 and all(e.args[1] == ("param", b.local_name(2)) for e in rs)
         if okr:
             for e in rs:
                 o = e.args[0]
                 if o[0] == "var":
                     init = b.init_expr(o[2])
                     okr = okr and init is not None and mir.is_call(init, "from") and mir.payload_variant_of(init[3][0]) == "Fixed"
+        # reserve() issued from a closure handed to a promotion helper: the amount must be the captured `additional` itself
+        nclo = 0
+        for cb in crate.closures_of.get(b.path, []):
+            for cbb, ct, cfn in cb.iter_calls():
+                if cfn and cfn["name"] == "reserve" and len(ct["args"]) == 2:
+                    nclo += 1
+                    a = cb.e_operand(ct["args"][1])
+                    okr = okr and a[0] == "field" and a[1] == ("param", cb.local_name(1))
+        okr = okr and (len(rs) + nclo) == 2
         out.append((b, "Bv::reserve|reserve amount", "pass" if okr else "violation",
                     "both arms reserve exactly `additional` (the promoted copy has the same length)" if okr else
                     "reserve is called with %s" % [mir.show(e.args[1]) for e in rs]))
@@ -631,6 +687,16 @@ def bv_reserve_shape(crate):
                     if op == "Le" and guard.is_capacity_call(r) and mir.is_call(l, "len"):
                         fx = [bb for bb, i, st in b.iter_stmts() if st["s"] == "assign" and st["r"]["k"] == "agg" and st["r"].get("variant") == "Fixed"]
                         ok = ok or (bool(fx) and all(b.edge_dominates((sb, succ), d) for d in fx))
+        if not ok:
+            # `match Bvp::try_from(&*heap) { Ok(inline) => *self = Fixed(inline), Err(_) => heap.shrink_to_fit() }`: the
+            # conversion itself fails exactly when len > Bvp::capacity() (its predicate is decided under C12 GUARD-PRED)
+            fx = [(bb, st) for bb, i, st in b.iter_stmts() if st["s"] == "assign" and st["r"]["k"] == "agg" and st["r"].get("variant") == "Fixed"]
+            okv = bool(fx)
+            for bb, st in fx:
+                v = b.e_operand(st["r"]["fs"][0])
+                okv = okv and v[0] == "field" and v[2] == "0" and v[1][0] == "variant" and v[1][2] == "Ok" and mir.is_call(v[1][1], "try_from") \
+                    and mir.payload_variant_of(v[1][1][3][0]) == "Dynamic"
+            ok = okv
         out.append((b, "Bv::shrink_to_fit|demotion predicate", "pass" if ok else "violation",
                     "demotes to inline storage exactly when len <= Bvp::capacity() (same predicate as Bv::zeros)" if ok else "demotion predicate not recognised"))
     for x in crate.bodies:
@@ -706,6 +772,7 @@ def check_c03(ctx, rep, tier):
     rep.floor("formatting observers (prefix constants, sibling digit extraction)", n, 14)
     run_defs(ctx, rep, floor=51)
     run_generic(ctx, rep, "POS", f2.positional_indices)
+    run_generic(ctx, rep, "ZIPREF", f2.zip_by_ref)
     run_dbgfx(ctx, rep, floor=600)    # crate-wide; ~733 functions with at least one effect on the reviewed tree
     rep.notes.append("FMT / stretch-SIB instances on rotl/rotr, bit counts and formatting are supporting facts for the "
                      "not-applicable properties C06, C16, C14: they are observers/operations C03 quantifies over, and a drift "
@@ -807,6 +874,8 @@ def check_c05(ctx, rep, tier):
                 select=lambda b, k: b.trait in SHIFT_TRAITS or b.name in ("shl_in", "shr_in"))
     run_generic(ctx, rep, "DECR", arith.decr_sites, configs=("dbg",), trusted_rule="DECR-TABLE",
                 select=lambda b, k: b.name in ("shl_in", "shr_in") or b.trait in SHIFT_TRAITS)
+    n = run_generic(ctx, rep, "OVF-SHIFT", arith.shift_amount_arith, configs=("dbg",), trusted_rule="OVF-SHIFT-TABLE")
+    rep.floor("overflow-checked arithmetic on the shift amount in the kernels", n, 54)
     n = run_generic(ctx, rep, "RET", shl_in_return)
     rep.floor("shl_in/shr_in implementations", n, 4)
     run_dbgfx(ctx, rep, lambda b, k: b.trait in SHIFT_TRAITS or b.name in ("shl_in", "shr_in"))
@@ -841,6 +910,10 @@ def check_c08(ctx, rep, tier):
     rep.floor("copy_range length effects", n, 2)
     counts = run_mask(ctx, rep, select=lambda w: w.body.name == "copy_range")
     rep.floor("copy_range truncations (K1)", counts.get("K1", 0), 2)
+    # split_off / split / truncate leave the low part in place through resize(index): the shrink must clear what it drops,
+    # or the low part no longer equals the vector made of the source's low bits
+    run_shrink(ctx, rep, select=lambda b: b.name in ("resize", "truncate", "split_off"))
+    run_mask(ctx, rep, select=lambda w: w.body.name == "resize")
     n = run_generic(ctx, rep, "SAFE-RECV", lambda c: receiver_shared(c, ("copy_range", "first", "last")), memo_key="recv_c08")
     rep.floor("copy_range receivers", n, 3)
     n = run_generic(ctx, rep, "ORDER", f2.trait_defaults, select=lambda b, k: any(x in k for x in ("split_off", "split", "first", "last", "is_empty")))
@@ -857,6 +930,7 @@ def check_c08(ctx, rep, tier):
 def check_c09(ctx, rep, tier):
     n = run_generic(ctx, rep, "REV", cmp.rev_parity)
     rep.floor("delegating comparisons", n, 25)
+    run_generic(ctx, rep, "ZIPREF", f2.zip_by_ref, select=lambda b, k: b is not None and b.name in ("eq", "ne", "cmp", "partial_cmp", "lt", "le", "gt", "ge"))
     n = run_generic(ctx, rep, "KERNEL", cmp.kernel_shape)
     # comparisons rewritten with iterator adaptors are reported as undecided by REV: they still count as located kernels
     n = len({i["key"].split("|")[0] for i in rep.instances if (i["rule"] == "KERNEL" and not i["key"].startswith("SIB"))
@@ -878,6 +952,9 @@ def check_c10(ctx, rep, tier):
     rep.floor("hash sinks / loop bounds / mode checks", n, 7)
     run_generic(ctx, rep, "UNWRAP", unwrap.sites, configs=("dbg",), select=lambda b, k: b.name == "hash")
     run_dbgfx(ctx, rep, lambda b, k: b.name == "hash")
+    # Hash is consistent with Eq only if Eq itself is not too lenient: a zip/by_ref equality that skips a word makes
+    # unequal values (with different hashes) compare equal
+    run_generic(ctx, rep, "ZIPREF", f2.zip_by_ref, select=lambda b, k: b is not None and b.name in ("eq", "ne", "hash"))
     # Hash for Bvf/Bvd feeds raw storage words: it is in the reliance set of the padding invariant, so the writer
     # discipline (every writer re-establishes zero padding) is a premise of this property
     counts = run_mask(ctx, rep, select=lambda w: w.klass != "CTOR")   # the trusted constructors are C03's known finding F11
@@ -948,8 +1025,13 @@ def bv_source_dispatch(crate):
             if a[0] == "agg" and a[1] == "Bv" and len(a[3]) == 1:
                 inner, wrap = a[3][0], a[2]
             core = inner
-            if mir.is_call(core, ("from", "clone")) and len(core[3]) == 1:
+            if mir.is_call(core, ("from", "clone", "into")) and len(core[3]) == 1:
                 core = core[3][0]
+            if core == src and mir.is_call(inner, ("from", "into")):
+                # `if let Dynamic(d) = bv { return d }; Bvd::from(&bv)`: the remaining variant is delegated to the
+                # by-reference twin of this conversion (itself an instance of this rule)
+                seen.append("Fixed" if "Dynamic" in seen else "Dynamic" if "Fixed" in seen else "Fixed")
+                continue
             v = dispatch.payload_variant(core)
             if v is None or core[1][1] != src:
                 probs.append("arm yields `%s`, which is not a conversion of a variant payload of the source" % mir.show(a)[:80])
@@ -996,7 +1078,7 @@ def check_c12(ctx, rep, tier):
     n = run_generic(ctx, rep, "LEN", f2.length_effects, select=_is_impl_conv)
     rep.floor("conversion length effects", n, 5)
     n = run_generic(ctx, rep, "GUARD-PRED", err_predicates, select=_is_impl_conv)
-    rep.floor("capacity predicates of conversions", n, 3)
+    rep.floor("capacity predicates of conversions", n, 2)     # a conversion may delegate to a sibling that owns the predicate
     counts = run_mask(ctx, rep, select=lambda w: _is_impl_conv(w.body, ""))
     rep.floor("masked-source copies (K6)", counts.get("K6", 0), 4)
     run_generic(ctx, rep, "GUARD-CAP", guard.capacity_guards, select=_is_impl_conv)
@@ -1093,6 +1175,7 @@ def check_c18(ctx, rep, tier):
     rep.floor("Bvd users of data.len()", run_used(ctx, rep), 7)
     n = run_generic(ctx, rep, "GUARD-BVP", bv_to_bvp_guards)
     rep.floor("Bv -> inline operation calls", n, 11)
+    run_generic(ctx, rep, "ORDER", f2.trait_defaults, select=lambda b, k: any(x in k for x in ("Extend", "FromIterator")))
     n = run_generic(ctx, rep, "SIB-CAP", bv_reserve_shape)
     rep.floor("capacity slots / mode predicates", n, 9)
     run_generic(ctx, rep, "LEN", f2.length_effects, select=lambda b, k: b.name in ("reserve", "shrink_to_fit", "with_capacity"))
@@ -1108,6 +1191,9 @@ def check_c18(ctx, rep, tier):
 def check_c19(ctx, rep, tier):
     n = run_generic(ctx, rep, "GUARD-CAP", guard.capacity_guards, trusted_rule="GUARD-CAP-TABLE")
     rep.floor("Bvf length growth / construction sites", n, 28)
+    # "beyond capacity return an error": the error predicate itself must be exact (value needs more bits than the
+    # capacity / length exceeds the capacity), not merely present - same rule as C11/C12/C13/C15 on the Bvf side
+    run_generic(ctx, rep, "GUARD-PRED", err_predicates, select=lambda b, k: b is not None and b.self_family == "Bvf")
     n = run_generic(ctx, rep, "DEBUG-IDX", debug_index_checks, configs=("dbg",))
     rep.floor("debug-build index checks", n, 6)
     # growth compositions reach the guarded primitives: append/prepend -> resize; insert/extend/collect/sign_extend via defaults
@@ -1142,6 +1228,10 @@ def check_c20(ctx, rep, tier):
     run_mask(ctx, rep, select=lambda w: (w.body.trait in fwd.OP_TRAITS or w.body.trait == "Clone") and w.klass != "CTOR")
     run_used(ctx, rep)
     run_generic(ctx, rep, "NARROW", arith.narrowing, configs=("dbg",))
+    # "x directly versus a vector built from x": on the reviewed tree every integer right-hand side is lifted to a vector
+    # and forwarded; an integer form that grows a kernel of its own must thread its carry like the vector kernels do
+    run_generic(ctx, rep, "CARRY", f2.carry_kernels,
+                select=lambda b, k: b is not None and bool(b.trait_args) and b.trait_args[0].lstrip("&") in f2.WORD_TYPES)
     if tier == "thorough":
         _matrix(ctx, rep, ("ops",))
     rep.not_decided += ["agreement of the hand-written twins beyond slot equality", "the kernels' values"]
